@@ -54,7 +54,7 @@ func genFastqRec(thorough, allowBig bool) *rapid.Generator[FastqRec] {
 		n := length.Draw(t, "len")
 		fixed := rapid.Just(n)
 		return FastqRec{
-			Name:  fastqAlpha.Field(12, 120, 5000).Draw(t, "name"),
+			Name:  fastqAlpha.Field(12, 120, 9000).Draw(t, "name"),
 			Seq:   fastqAlpha.BlobOf(fixed, 200).Draw(t, "seq"),
 			Quals: fastqAlpha.BlobOf(fixed, 200).Draw(t, "quals"),
 		}
@@ -174,6 +174,7 @@ func checkC02(c C02Case, o *Obs) error {
 		o.Class("roundtrip")
 		o.NT = len(c.Recs) >= 2 || bigRead
 		var all bytes.Buffer
+		var keeper marshalKeeper
 		for i, r := range c.Recs {
 			fq := &fastq.Fastq{Name: bytes.Clone(r.Name), Sequence: bytes.Clone(seqs[i]), Quals: bytes.Clone(quals[i])}
 			var w bytes.Buffer
@@ -195,6 +196,11 @@ func checkC02(c C02Case, o *Obs) error {
 				return fmt.Errorf("record %d: writer modified the record", i)
 			}
 			all.Write(mt)
+			keeper.keep(fmt.Sprintf("record %d", i), mt)
+		}
+		(&fastq.Fastq{Name: []byte("another record"), Sequence: []byte("ACGTACGTAC"), Quals: []byte("IIIIIJJJJJ")}).MarshalText()
+		if err := keeper.verify(); err != nil {
+			return err
 		}
 		items, err := readFastqItems(all.Bytes(), len(c.Recs)+4)
 		if err != nil {
